@@ -35,6 +35,11 @@ const LINKS_SIZE: usize = std::mem::size_of::<Links>();
 /// Maximum node size (with full tower)
 const MAX_NODE_SIZE: usize = std::mem::size_of::<Node>() + (MAX_HEIGHT - 1) * LINKS_SIZE;
 
+/// Upper bound of the arena space one entry takes on top of its key and value
+/// bytes, whatever tower height is drawn: a full-height node plus alignment
+/// padding (`new_raw_node` asks the arena for room for the full tower).
+pub(crate) const MAX_ENTRY_OVERHEAD: usize = MAX_NODE_SIZE + 8;
+
 /// Precomputed probabilities for random height generation
 fn probabilities() -> &'static [u32; MAX_HEIGHT] {
 	static PROBABILITIES: std::sync::OnceLock<[u32; MAX_HEIGHT]> = std::sync::OnceLock::new();
